@@ -71,6 +71,17 @@ def centers_contract():
                 bad.append(dict(what='kernel lifting width differs from declared (scikit-learn kernel approximation)',
                                 estimator=repr(mk()), produced=int(Xt.shape[1]), declared=int(lf.n_features_out_),
                                 n_names=int(len(names))))
+    # random binning on many widely spread samples (more than a thousand occupied bins per component)
+    n += 1
+    Xw = rng.uniform(-300.0, 300.0, size=(1500, 2))
+    try:
+        lf = pykoop.KernelApproxLiftingFn(pykoop.RandomBinningKernelApprox(n_components=2, random_state=0)).fit(Xw)
+        wt = lf.transform(Xw[:40]).shape[1]
+        if wt != lf.n_features_out_:
+            bad.append(dict(what='kernel lifting width differs from declared', method='binning, 1500 widely spread samples',
+                            produced=int(wt), declared=int(lf.n_features_out_)))
+    except Exception as e:  # noqa
+        bad.append(dict(what=f'kernel lifting (binning, 1500 widely spread samples) raised {type(e).__name__}: {e}'[:300]))
     for nc in (1, 4):
         n += 1
         X = rng.normal(size=(8, 2))
@@ -93,6 +104,8 @@ def run(res, tier):
     n4, bad4 = direct.leaf_refit(rng)
     n3 += n4
     bad3 = bad3 + bad4
+    n_k, bad_k = direct.extra_kernel_checks(rng, 'dims')
+    n3 += n_k; bad3 = bad3 + bad_k
     res.coverage.update(
         evaluations=len(batch.meta) + ev + n3, distinct_nontrivial=distinct + ev + n3,
         rule=('M2: (n_states_out_, n_inputs_out_, min_samples_, n_samples_in(4)) and transform output of the '
